@@ -154,6 +154,13 @@ theorem C07_merge_preserves_key_tree (suppress : Bool) (top : Str) (dto : Defaul
 theorem C07_suppress_and_inherit_silent (top : Str) (path : KeyPath) (locKeys bkiKeys : List Str) :
     missingFlat top false path locKeys bkiKeys ++ surplusW top true path locKeys bkiKeys = [] := rfl
 
+/-- **One per (locale, key path).**  The diagnostics of a flat level contain no duplicates (keys of
+    maps are distinct): at most one `missing` and at most one `surplus` per key path, never both -/
+theorem C07_warnings_nodup_flat (top : Str) (implicit suppress : Bool) (path : KeyPath)
+    (locKeys bkiKeys : List Str) (h1 : bkiKeys.Nodup) (h2 : locKeys.Nodup) :
+    (missingFlat top implicit path locKeys bkiKeys ++ surplusW top suppress path locKeys bkiKeys).Nodup :=
+  warnings_nodup_flat top implicit suppress path locKeys bkiKeys h1 h2
+
 /-- an `inherits` entry (explicit default) silences every `missing` of a flat level -/
 theorem C07_inherits_silences_missing (top : Str) (path : KeyPath) (locKeys bkiKeys : List Str) :
     missingFlat top false path locKeys bkiKeys = [] := rfl
@@ -195,6 +202,25 @@ theorem C07_subkey_mismatch_error' (recMerge : MergeRec) (top : Str) (dto : Defa
     (l : Option Loc) (iol : IOL) (d : Defaults) (st : St) :
     mergeValue recMerge top dto kp (.subkeys l) (.value iol d) st = .err "SubKeyMissmatch" :=
   mergeValue_value_mismatch recMerge top dto kp l iol d st
+
+/-- conversely a merge that succeeds had no mismatch: for every builder key the locale has an entry
+    for, the (reduced) value is a group or `null` where the default locale has a group, and is not
+    a group where the default locale has a value.  (So a mismatch can only end in an error — the
+    `SubKeyMissmatch` of the two theorems above, unless an earlier key already failed.) -/
+theorem C07_ok_no_mismatch (suppress : Bool) (top : Str) (dto : DefaultTo) (fuel : Nat) (path : KeyPath)
+    (loc : Loc) (bki : BKI) (st : St) (r : Loc × BKI × St)
+    (h : mergeLocale suppress top dto fuel path loc bki st = .ok r)
+    (k : Str) (lv : LV) (v cur : PV) (hk : AMap.get? k bki = some lv) (hv : AMap.get? k loc.keys = some v)
+    (hr : Reduce.reduce v = .ok cur) : Fits cur lv := by
+  cases fuel with
+  | zero => simp [mergeLocale] at h
+  | succ fuel =>
+    simp only [mergeLocale] at h
+    split at h
+    · simp at h
+    · simp at h
+    · rename_i hmk
+      exact mergeKeys_ok_fits _ top dto path bki loc.keys [] st _ hmk k lv v cur hk hv hr
 
 /-! ## Examples: the hypotheses are satisfiable by non-trivial values -/
 
